@@ -55,8 +55,8 @@ if [ "$changed" = "-" ] && [ "$absent" = "-" ]; then
   echo "$name$note | - | - | (generated text identical: the change is outside the translated functions)"; exit 0
 fi
 if ! $C Gen/Source.v >/dev/null 2>&1; then broken="Gen/Source.v(!)"; fi
-for n in "" 2 3 4 5 6 7 8 9 10 11 12 _mem; do
-  f=Proofs/GenEq$n.v
+for f in $(grep -o 'Proofs/GenEq[A-Za-z0-9_]*\.v' _CoqProject); do
+  n=$(basename "$f" .v | sed 's/^GenEq//')
   [ -f "$f" ] || continue
   if ! $C "$f" >"$work/out.txt" 2>&1; then broken="$broken GenEq$n"; fi
 done
